@@ -275,6 +275,8 @@ type spec struct {
 	HexAT        string            `json:"hex_at,omitempty"`
 	HexAnn       map[string]string `json:"hex_ann,omitempty"`
 	HexConfigAnn map[string]string `json:"hex_config_ann,omitempty"`
+	HexLayers    []string          `json:"hex_layers,omitempty"` // descriptor tokens (showDesc), when a layer string is not UTF-8
+	HexConfig    string            `json:"hex_config,omitempty"`
 	// history: the specs (JSON) of the calls made before this one on the same target, oldest first
 	Prev []string `json:"prev,omitempty"`
 }
@@ -328,8 +330,67 @@ func validMap(m map[string]string) bool {
 	return true
 }
 
+func validDesc(d ocispec.Descriptor) bool {
+	ok := utf8.ValidString(d.MediaType) && utf8.ValidString(string(d.Digest)) && utf8.ValidString(d.ArtifactType) && validMap(d.Annotations)
+	for _, u := range d.URLs {
+		ok = ok && utf8.ValidString(u)
+	}
+	return ok
+}
+
+func unhexList(s, sep string) []string {
+	var out []string
+	for _, x := range strings.Split(s, sep) {
+		out = append(out, common.UnHex(x))
+	}
+	return out
+}
+
+// parseDescToken is the inverse of showDesc.
+func parseDescToken(t string) ocispec.Descriptor {
+	f := strings.Split(t, ":")
+	if len(f) != 7 || f[0] != "D" {
+		panic("descriptor token " + t)
+	}
+	sz, _ := strconv.ParseInt(f[3], 10, 64)
+	d := ocispec.Descriptor{MediaType: common.UnHex(f[1]), Digest: digest.Digest(common.UnHex(f[2])), Size: sz, ArtifactType: common.UnHex(f[5])}
+	if f[4] != "-" {
+		d.Annotations = map[string]string{}
+		for _, kv := range strings.Split(f[4], ";") {
+			p := strings.SplitN(kv, "=", 2)
+			d.Annotations[common.UnHex(p[0])] = common.UnHex(p[1])
+		}
+	}
+	x := strings.Split(f[6], "~")
+	if x[0] != "_" {
+		d.URLs = unhexList(x[0], ".")
+	}
+	if x[1] != "_" {
+		d.Data = []byte(common.UnHex(x[1]))
+	}
+	if x[2] != "_" {
+		p := strings.Split(x[2], ".")
+		d.Platform = &ocispec.Platform{Architecture: common.UnHex(p[0]), OS: common.UnHex(p[1]), OSVersion: common.UnHex(p[2]), Variant: common.UnHex(p[4])}
+		if p[3] != "_" {
+			d.Platform.OSFeatures = unhexList(p[3], "+")
+		}
+	}
+	return d
+}
+
 // decodeHex restores the raw strings of a replayed spec.
 func (sp *spec) decodeHex() {
+	if sp.HexLayers != nil {
+		sp.Layers = nil
+		for _, t := range sp.HexLayers {
+			sp.Layers = append(sp.Layers, parseDescToken(t))
+		}
+		sp.HexLayers = nil
+	}
+	if sp.HexConfig != "" {
+		d := parseDescToken(sp.HexConfig)
+		sp.Config, sp.HexConfig = &d, ""
+	}
 	if sp.HexAT != "" {
 		sp.AT, sp.HexAT = common.UnHex(sp.HexAT), ""
 	}
@@ -343,6 +404,14 @@ func (sp *spec) decodeHex() {
 
 // nonUTF8 reports whether a caller string that reaches the manifest document is not valid UTF-8.
 func (sp *spec) nonUTF8() bool {
+	for _, l := range sp.Layers {
+		if !validDesc(l) {
+			return true
+		}
+	}
+	if sp.Config != nil && !validDesc(*sp.Config) {
+		return true
+	}
 	return !utf8.ValidString(sp.AT) || !validMap(sp.Ann) || !validMap(sp.ConfigAnn)
 }
 
@@ -383,6 +452,13 @@ func sanDescP(d *ocispec.Descriptor) *ocispec.Descriptor {
 	c := *d
 	c.MediaType, c.ArtifactType, c.Digest = sanString(c.MediaType), sanString(c.ArtifactType), digest.Digest(sanString(string(c.Digest)))
 	c.Annotations = sanMap(c.Annotations)
+	if c.URLs != nil {
+		us := make([]string, len(c.URLs))
+		for i, u := range c.URLs {
+			us[i] = sanString(u)
+		}
+		c.URLs = us
+	}
 	return &c
 }
 
@@ -901,6 +977,19 @@ func specJSON(sp *spec) string {
 	}
 	if !validMap(c.ConfigAnn) {
 		c.HexConfigAnn, c.ConfigAnn = hexMap(c.ConfigAnn), nil
+	}
+	layersOK := true
+	for _, l := range c.Layers {
+		layersOK = layersOK && validDesc(l)
+	}
+	if !layersOK {
+		for _, l := range c.Layers {
+			c.HexLayers = append(c.HexLayers, showDesc(l))
+		}
+		c.Layers = nil
+	}
+	if c.Config != nil && !validDesc(*c.Config) {
+		c.HexConfig, c.Config = showDesc(*c.Config), nil
 	}
 	js, err := json.Marshal(&c)
 	if err != nil {
